@@ -1315,12 +1315,18 @@ func c10ReplayFile(ctx *core.Ctx, path string) {
 	}
 	var wrapped struct {
 		Detail struct {
-			Case *c10Case `json:"case"`
-			Len  *int     `json:"len"`
+			Case *c10Case    `json:"case"`
+			Cuts *c10CutCase `json:"cuts"`
+			Len  *int        `json:"len"`
 			Base *int32   `json:"base"`
 		} `json:"detail"`
 	}
 	cs := new(c10Case)
+	if json.Unmarshal(b, &wrapped) == nil && wrapped.Detail.Cuts != nil {
+		ctx.Hist("corpus", "replayed")
+		c10CutsRun(ctx, wrapped.Detail.Cuts, nil, nil)
+		return
+	}
 	if json.Unmarshal(b, &wrapped) == nil && wrapped.Detail.Case != nil {
 		cs = wrapped.Detail.Case
 	} else if json.Unmarshal(b, &wrapped) == nil && wrapped.Detail.Len != nil && wrapped.Detail.Base != nil {
@@ -1943,164 +1949,191 @@ type c10K struct {
 	V int64 `parquet:"v"`
 }
 
+// a sorting writer call history: per round the calls "w:<k;k;…>" (Write of rows with these keys),
+// "r:<k;k;…>" (WriteRows), "f" (Flush); a round ends with Close, the next starts with Reset
+type c10CutCase struct {
+	SortRowCount int        `json:"sort_row_count"`
+	Dedupe       bool       `json:"drop_duplicated_rows"`
+	Rounds       [][]string `json:"rounds"`
+	Abandon      []bool     `json:"abandoned_rounds,omitempty"` // the round ends with Reset alone (no Close): its rows are discarded
+}
+
 // c10Cuts: a history of Write / WriteRows / Flush calls on a SortingWriter: the rows of every
 // temporary row group (hook) against the Lean mirror of the writeRows loop (L2), and the output
 // against the property (L1: sorted permutation; with duplicate dropping one row per key).
 func c10Cuts(ctx *core.Ctx, r *rand.Rand, reqs *[]string, pend *[]func(string)) {
-	maxRows := []int{1, 2, 3, 4, 7, 8, 9, 16, 17, 64}[r.Intn(10)]
-	dedupe := r.Intn(3) == 0
+	cs := &c10CutCase{SortRowCount: []int{1, 2, 3, 4, 7, 8, 9, 16, 17, 64}[r.Intn(10)], Dedupe: r.Intn(3) == 0}
 	nkeys := []int{2, 5, 1000}[r.Intn(3)]
-	out := new(bytes.Buffer)
-	w := parquet.NewSortingWriter[c10K](out, int64(maxRows),
-		parquet.SortingWriterConfig(parquet.SortingColumns(parquet.Ascending("k")), parquet.DropDuplicatedRows(dedupe)))
 	// the writer is reused through Reset for a second, independent history in one case out of four
 	rounds := 1
 	if r.Intn(4) == 0 {
 		rounds = 2
 	}
-	var earlier []string
 	for round := 0; round < rounds; round++ {
+		var calls []string
+		for i, k := 0, 1+r.Intn(8); i < k; i++ {
+			if r.Intn(4) == 0 {
+				calls = append(calls, "f")
+				continue
+			}
+			nb := []int{0, 1, 2, 3, 5, 8, 9, 17, 40, 130}[r.Intn(10)]
+			ks := make([]string, nb)
+			for j := range ks {
+				ks[j] = fmt.Sprint(r.Intn(nkeys))
+			}
+			calls = append(calls, []string{"w:", "r:"}[r.Intn(2)]+strings.Join(ks, ";"))
+		}
+		cs.Rounds = append(cs.Rounds, calls)
+		cs.Abandon = append(cs.Abandon, round+1 < rounds && r.Intn(2) == 0)
+	}
+	c10CutsRun(ctx, cs, reqs, pend)
+}
+
+func c10CutsRun(ctx *core.Ctx, cs *c10CutCase, reqs *[]string, pend *[]func(string)) {
+	out := new(bytes.Buffer)
+	w := parquet.NewSortingWriter[c10K](out, int64(cs.SortRowCount),
+		parquet.SortingWriterConfig(parquet.SortingColumns(parquet.Ascending("k")), parquet.DropDuplicatedRows(cs.Dedupe)))
+	schema := w.Schema()
+	for round, calls := range cs.Rounds {
 		if round > 0 {
 			out = new(bytes.Buffer)
 			w.Reset(out)
 			ctx.Hist("sorting-writer-call", "Reset")
 		}
-		calls, ok := c10CutsRound(ctx, r, reqs, pend, w, out, maxRows, dedupe, nkeys, earlier)
-		if !ok {
-			return
+		detail := func() map[string]any {
+			return map[string]any{"cuts": cs, "round": round, "variant": ctx.Variant}
 		}
-		earlier = append(earlier, calls, "Close", "Reset")
-	}
-}
-
-func c10CutsRound(ctx *core.Ctx, r *rand.Rand, reqs *[]string, pend *[]func(string), w *parquet.SortingWriter[c10K], out *bytes.Buffer,
-	maxRows int, dedupe bool, nkeys int, earlier []string) (calls string, ok bool) {
-	schema := w.Schema()
-	var ops []string
-	var written []c10K
-	detail := func() map[string]any {
-		return map[string]any{"sort_row_count": maxRows, "drop_duplicated_rows": dedupe, "calls": strings.Join(ops, " "),
-			"earlier_calls_on_the_same_writer": strings.Join(earlier, " "), "variant": ctx.Variant}
-	}
-	fail := ""
-	for i, k := 0, 1+r.Intn(8); i < k && fail == ""; i++ {
-		if r.Intn(4) == 0 {
-			ops = append(ops, "f")
-			ctx.Hist("sorting-writer-call", "Flush")
-			if err := w.Flush(); err != nil {
-				fail = "Flush: " + err.Error()
-			}
-			continue
-		}
-		nb := []int{0, 1, 2, 3, 5, 8, 9, 17, 40, 130}[r.Intn(10)]
-		batch := make([]c10K, nb)
-		var ks []string
-		for j := range batch {
-			batch[j] = c10K{K: int64(r.Intn(nkeys)), V: int64(len(earlier))*100000 + int64(len(written)+j)} // V: unique per writer
-			ks = append(ks, fmt.Sprint(batch[j].K))
-		}
-		written = append(written, batch...)
-		ops = append(ops, "w:"+strings.Join(ks, ";"))
-		var err error
-		var n int
-		if r.Intn(2) == 0 {
-			ctx.Hist("sorting-writer-call", "Write")
-			n, err = w.Write(batch)
-		} else {
-			ctx.Hist("sorting-writer-call", "WriteRows")
-			rows := make([]parquet.Row, nb)
-			for j := range batch {
-				rows[j] = schema.Deconstruct(nil, &batch[j])
-			}
-			n, err = w.WriteRows(rows)
-		}
-		if err != nil {
-			fail = "write: " + err.Error()
-		} else if n != nb {
-			fail = fmt.Sprintf("write of %d rows returned %d", nb, n)
-		}
-	}
-	req := fmt.Sprintf("swcuts %d %d %s", maxRows, map[bool]int{false: 0, true: 1}[dedupe], strings.Join(ops, " "))
-	ctx.Case(req+" | after: "+strings.Join(earlier, " "), len(ops) > 2)
-	ctx.Hist("sort-run-rows", fmt.Sprint(maxRows))
-	if fail == "" {
-		if err := w.Flush(); err != nil { // what Close starts with
-			fail = "Flush: " + err.Error()
-		}
-	}
-	if fail != "" {
-		ctx.Fail("L1", "sorting-writer-call-error", "a Write/WriteRows/Flush call on a sorting writer failed: "+fail, detail())
-		return "", false
-	}
-	runs, buffered := parquet.VerifSortingWriterRuns(w)
-	got := fmt.Sprintf("ok runs=%s buf=%d", core.JoinInts(runs), buffered)
-	*reqs = append(*reqs, req)
-	*pend = append(*pend, func(ans string) {
-		if ans != got {
-			d := detail()
-			d["impl"], d["model"] = got, ans
-			ctx.Fail("L2", "sorting-writer-runs-mirror", "the rows per temporary row group of the sorting writer differ from the Lean mirror of writeRows/Flush", d)
-		}
-	})
-	// L1 on the output
-	if err := w.Close(); err != nil {
-		ctx.Fail("L1", "sorting-writer-call-error", "Close failed: "+err.Error(), detail())
-		return "", false
-	}
-	var got1 []c10K
-	if len(written) > 0 || out.Len() > 0 {
-		rd := parquet.NewGenericReader[c10K](bytes.NewReader(out.Bytes()))
-		got1 = make([]c10K, rd.NumRows())
-		if n, err := rd.Read(got1); n != len(got1) || (err != nil && err != io.EOF) {
-			ctx.Fail("L1", "sorting-writer-call-error", fmt.Sprintf("reading the output back: %d of %d rows, %v", n, len(got1), err), detail())
-			return "", false
-		}
-		rd.Close()
-	}
-	bad := ""
-	for i := 0; i+1 < len(got1); i++ {
-		if got1[i].K > got1[i+1].K || (dedupe && got1[i].K == got1[i+1].K) {
-			bad = fmt.Sprintf("rows %d and %d are out of order (or duplicate keys remain): k=%d, k=%d", i, i+1, got1[i].K, got1[i+1].K)
-			break
-		}
-	}
-	if bad == "" {
-		in := map[c10K]int{}
-		inKeys := map[int64]bool{}
-		for _, x := range written {
-			in[x]++
-			inKeys[x.K] = true
-		}
-		outKeys := map[int64]bool{}
-		for _, x := range got1 {
-			if in[x] == 0 {
-				bad = fmt.Sprintf("row out {k=%d v=%d} was never written (or comes out twice)", x.K, x.V)
+		var ops []string // the calls as the Lean op reads them
+		var written []c10K
+		fail := ""
+		for _, call := range calls {
+			if fail != "" {
 				break
 			}
-			in[x]--
-			outKeys[x.K] = true
+			if call == "f" {
+				ops = append(ops, "f")
+				ctx.Hist("sorting-writer-call", "Flush")
+				if err := w.Flush(); err != nil {
+					fail = "Flush: " + err.Error()
+				}
+				continue
+			}
+			var batch []c10K
+			if len(call) > 2 {
+				for _, t := range strings.Split(call[2:], ";") {
+					var k int64
+					fmt.Sscan(t, &k)
+					batch = append(batch, c10K{K: k, V: int64(round)*100000 + int64(len(written)+len(batch))}) // V: unique per writer
+				}
+			}
+			written = append(written, batch...)
+			ops = append(ops, "w:"+call[2:])
+			var err error
+			var n int
+			if call[0] == 'w' {
+				ctx.Hist("sorting-writer-call", "Write")
+				n, err = w.Write(batch)
+			} else {
+				ctx.Hist("sorting-writer-call", "WriteRows")
+				rows := make([]parquet.Row, len(batch))
+				for j := range batch {
+					rows[j] = schema.Deconstruct(nil, &batch[j])
+				}
+				n, err = w.WriteRows(rows)
+			}
+			if err != nil {
+				fail = "write: " + err.Error()
+			} else if n != len(batch) {
+				fail = fmt.Sprintf("write of %d rows returned %d", len(batch), n)
+			}
 		}
-		if bad == "" && !dedupe && len(got1) != len(written) {
-			bad = fmt.Sprintf("%d rows written, %d rows out", len(written), len(got1))
+		req := fmt.Sprintf("swcuts %d %d %s", cs.SortRowCount, map[bool]int{false: 0, true: 1}[cs.Dedupe], strings.Join(ops, " "))
+		ctx.Case(fmt.Sprintf("%s | round %d of %v %v", req, round, cs.Rounds, cs.Abandon), len(ops) > 2)
+		ctx.Hist("sort-run-rows", fmt.Sprint(cs.SortRowCount))
+		if fail == "" && round < len(cs.Abandon) && cs.Abandon[round] {
+			ctx.Hist("sorting-writer-call", "Reset without Close")
+			continue // the next round's output must hold that round's rows only
 		}
-		if bad == "" && dedupe && len(outKeys) != len(inKeys) {
-			bad = fmt.Sprintf("%d keys written, %d keys remain", len(inKeys), len(outKeys))
+		if fail == "" {
+			if err := w.Flush(); err != nil { // what Close starts with
+				fail = "Flush: " + err.Error()
+			}
+		}
+		if fail != "" {
+			ctx.Fail("L1", "sorting-writer-call-error", "a Write/WriteRows/Flush call on a sorting writer failed: "+fail, detail())
+			return
+		}
+		runs, buffered := parquet.VerifSortingWriterRuns(w)
+		got := fmt.Sprintf("ok runs=%s buf=%d", core.JoinInts(runs), buffered)
+		if reqs != nil {
+			*reqs = append(*reqs, req)
+			*pend = append(*pend, func(ans string) {
+				if ans != got {
+					d := detail()
+					d["impl"], d["model"] = got, ans
+					ctx.Fail("L2", "sorting-writer-runs-mirror", "the rows per temporary row group of the sorting writer differ from the Lean mirror of writeRows/Flush", d)
+				}
+			})
+		}
+		// L1 on the output
+		if err := w.Close(); err != nil {
+			ctx.Fail("L1", "sorting-writer-call-error", "Close failed: "+err.Error(), detail())
+			return
+		}
+		var got1 []c10K
+		if len(written) > 0 || out.Len() > 0 {
+			rd := parquet.NewGenericReader[c10K](bytes.NewReader(out.Bytes()))
+			got1 = make([]c10K, rd.NumRows())
+			if n, err := rd.Read(got1); n != len(got1) || (err != nil && err != io.EOF) {
+				ctx.Fail("L1", "sorting-writer-call-error", fmt.Sprintf("reading the output back: %d of %d rows, %v", n, len(got1), err), detail())
+				return
+			}
+			rd.Close()
+		}
+		bad := ""
+		for i := 0; i+1 < len(got1); i++ {
+			if got1[i].K > got1[i+1].K || (cs.Dedupe && got1[i].K == got1[i+1].K) {
+				bad = fmt.Sprintf("rows %d and %d are out of order (or duplicate keys remain): k=%d, k=%d", i, i+1, got1[i].K, got1[i+1].K)
+				break
+			}
+		}
+		if bad == "" {
+			in := map[c10K]int{}
+			inKeys := map[int64]bool{}
+			for _, x := range written {
+				in[x]++
+				inKeys[x.K] = true
+			}
+			outKeys := map[int64]bool{}
+			for _, x := range got1 {
+				if in[x] == 0 {
+					bad = fmt.Sprintf("row out {k=%d v=%d} was never written to this output (or comes out twice)", x.K, x.V)
+					break
+				}
+				in[x]--
+				outKeys[x.K] = true
+			}
+			if bad == "" && !cs.Dedupe && len(got1) != len(written) {
+				bad = fmt.Sprintf("%d rows written, %d rows out", len(written), len(got1))
+			}
+			if bad == "" && cs.Dedupe && len(outKeys) != len(inKeys) {
+				bad = fmt.Sprintf("%d keys written, %d keys remain", len(inKeys), len(outKeys))
+			}
+		}
+		if bad != "" {
+			d := detail()
+			d["out"] = fmt.Sprint(got1)
+			ctx.Fail("L1", "sorting-writer-history "+map[bool]string{false: "order-or-permutation", true: "dedupe"}[cs.Dedupe],
+				"after a history of Write/WriteRows/Flush calls and Close: "+bad, d)
+			return
 		}
 	}
-	if bad != "" {
-		d := detail()
-		d["out"] = fmt.Sprint(got1)
-		ctx.Fail("L1", "sorting-writer-history "+map[bool]string{false: "order-or-permutation", true: "dedupe"}[dedupe],
-			"after a history of Write/WriteRows/Flush calls and Close: "+bad, d)
-		return "", false
-	}
-	return strings.Join(ops, " "), true
 }
 
 // ---------------------------------------------------------------- entry point
 
 func RunC10(ctx *core.Ctx) {
-	ctx.SetRule("L1: sort.Sort on GenericBuffer[T], Buffer, RowBuffer[T] and SortingWriter[T] Close, each through its typed Write and through its []Row entry point (WriteRows; the rows are lent from producer memory that is reused and overwritten after every call) over five struct schemas (required / optional pointer / optional zero-is-null / nested optional group / repeated leaves, also repeated leaves placed before the required key columns; required and optional leaves below two optional groups, below a repeated group and below a required group), 0-3 sorting columns x asc/desc x nulls first/last, null and value runs of length 1,2,3,7,8,9,15,16,17,64,65, small alphabets (duplicates), write batches around 8 and 64, explicit Flush() calls between the writes of a sorting writer, optional second phase (write more, sort again); Write/WriteRows/Flush/Close histories on a sorting writer with sort runs of 1..64 rows, the writer reused through Reset for a second history; L2: broadcastRangeInt32 for lengths 0..40,63..65,127..129,255,257 x 17 bases, and write/Swap/Less/Page histories on one optional column against the Lean OptCol mirror (flat, and as required / optional leaf of an optional group with nulls at every level below the maximum) and on one repeated column against the RepCol mirror; what Buffer.configure sets up (buffer kind, reversed wrapper, null ordering function) for every leaf of the static schemas and of random schemas nested up to depth 4 against the Lean mirror `configure`; the rows per temporary row group of the sorting writer against the Lean mirror of the writeRows loop. Distinct by canonical input; non-trivial = some nullable sorting column holds both nulls and values (L1), run length >= 8 not a multiple of 8 (kernel), more than 3 ops (history), a required leaf with inherited levels (configure), more than 2 calls (sorting writer history)")
+	ctx.SetRule("L1: sort.Sort on GenericBuffer[T], Buffer, RowBuffer[T] and SortingWriter[T] Close, each through its typed Write and through its []Row entry point (WriteRows; the rows are lent from producer memory that is reused and overwritten after every call) over five struct schemas (required / optional pointer / optional zero-is-null / nested optional group / repeated leaves, also repeated leaves placed before the required key columns; required and optional leaves below two optional groups, below a repeated group and below a required group), 0-3 sorting columns x asc/desc x nulls first/last, null and value runs of length 1,2,3,7,8,9,15,16,17,64,65, small alphabets (duplicates), write batches around 8 and 64, explicit Flush() calls between the writes of a sorting writer, optional second phase (write more, sort again); Write/WriteRows/Flush/Close histories on a sorting writer with sort runs of 1..64 rows, the writer reused through Reset (after Close, or abandoning the rows written so far) for a second history; L2: broadcastRangeInt32 for lengths 0..40,63..65,127..129,255,257 x 17 bases, and write/Swap/Less/Page histories on one optional column against the Lean OptCol mirror (flat, and as required / optional leaf of an optional group with nulls at every level below the maximum) and on one repeated column against the RepCol mirror; what Buffer.configure sets up (buffer kind, reversed wrapper, null ordering function) for every leaf of the static schemas and of random schemas nested up to depth 4 against the Lean mirror `configure`; the rows per temporary row group of the sorting writer against the Lean mirror of the writeRows loop. Distinct by canonical input; non-trivial = some nullable sorting column holds both nulls and values (L1), run length >= 8 not a multiple of 8 (kernel), more than 3 ops (history), a required leaf with inherited levels (configure), more than 2 calls (sorting writer history)")
 	d := ctx.Driver()
 	if ctx.Replay != "" {
 		c10Guard(ctx, "panic-in-replay", "replaying a recorded case panicked", func() map[string]any { return map[string]any{"file": ctx.Replay} },
@@ -2122,6 +2155,59 @@ func RunC10(ctx *core.Ctx) {
 				func() { c10ReplayFile(ctx, f) })
 		}
 	}
+	// 2b. the round-3 L2 ties, on their own driver, concurrently with the histories above and the L1 cases
+	var extras sync.WaitGroup
+	extras.Add(1)
+	go func() {
+		defer extras.Done()
+		d2 := ctx.Driver()
+		var reqs []string
+		var pend []func(string)
+		// … on a required / optional leaf of an optional group (null at levels below the maximum)
+		rn := ctx.Rand("c10-nested-history")
+		for i, n := 0, ctx.Scale(1500, 9000); i < n; i++ {
+			c10Guard(ctx, "panic-in-optional-buffer-history", "a write/Swap/Less/Page history panicked outside its guarded operations", nil,
+				func() { c10HistoryNested(ctx, rn, &reqs, &pend) })
+			if len(reqs) >= 2000 {
+				c06Flush(ctx, d2, &reqs, &pend)
+			}
+		}
+		c06Flush(ctx, d2, &reqs, &pend)
+		// … Buffer.configure on the leaves of the static schemas and of random nested schemas
+		rc := ctx.Rand("c10-configure")
+		static := []*parquet.Schema{parquet.SchemaOf(new(c10A)), parquet.SchemaOf(new(c10B)), parquet.SchemaOf(new(c10C)),
+			parquet.SchemaOf(new(c10D)), parquet.SchemaOf(new(c10E)), parquet.SchemaOf(new(c10Nest1)), parquet.SchemaOf(new(c10Nest2))}
+		for i, n := 0, ctx.Scale(2000, 12000); i < n; i++ {
+			c10Guard(ctx, "panic-in-buffer-configure", "NewBuffer on a nested schema with sorting columns panicked", nil, func() {
+				var schema *parquet.Schema
+				if i < 40*len(static) {
+					schema = static[i%len(static)]
+				} else {
+					g := parquet.Group{}
+					for j, k := 0, 1+rc.Intn(3); j < k; j++ {
+						g[string(rune('p'+j))] = c10RandSchemaNode(rc, 3)
+					}
+					schema = parquet.NewSchema("s", g)
+				}
+				c10Conf(ctx, schema, rc, &reqs, &pend)
+			})
+			if len(reqs) >= 2000 {
+				c06Flush(ctx, d2, &reqs, &pend)
+			}
+		}
+		c06Flush(ctx, d2, &reqs, &pend)
+		// … and the run cuts of the sorting writer over Write/WriteRows/Flush histories
+		rw := ctx.Rand("c10-sorting-writer-history")
+		for i, n := 0, ctx.Scale(1000, 6000); i < n; i++ {
+			c10Guard(ctx, "panic-in-sorting-writer-history", "a Write/WriteRows/Flush/Close history on a sorting writer panicked", nil,
+				func() { c10Cuts(ctx, rw, &reqs, &pend) })
+			if len(reqs) >= 1000 {
+				c06Flush(ctx, d2, &reqs, &pend)
+			}
+		}
+		c06Flush(ctx, d2, &reqs, &pend)
+	}()
+	defer extras.Wait()
 	// 2. L2 histories
 	{
 		r := ctx.Rand("c10-history")
@@ -2141,49 +2227,6 @@ func RunC10(ctx *core.Ctx) {
 			c10Guard(ctx, "panic-in-repeated-buffer-history", "a write/Swap/Less/Page history on a repeated column panicked",
 				nil, func() { c10RepHistory(ctx, rr, &reqs, &pend) })
 			if len(reqs) >= 2000 {
-				c06Flush(ctx, d, &reqs, &pend)
-			}
-		}
-		c06Flush(ctx, d, &reqs, &pend)
-		// … on a required / optional leaf of an optional group (null at levels below the maximum)
-		rn := ctx.Rand("c10-nested-history")
-		for i, n := 0, ctx.Scale(1500, 15000); i < n; i++ {
-			c10Guard(ctx, "panic-in-optional-buffer-history", "a write/Swap/Less/Page history panicked outside its guarded operations", nil,
-				func() { c10HistoryNested(ctx, rn, &reqs, &pend) })
-			if len(reqs) >= 2000 {
-				c06Flush(ctx, d, &reqs, &pend)
-			}
-		}
-		c06Flush(ctx, d, &reqs, &pend)
-		// … Buffer.configure on the leaves of the static schemas and of random nested schemas
-		rc := ctx.Rand("c10-configure")
-		static := []*parquet.Schema{parquet.SchemaOf(new(c10A)), parquet.SchemaOf(new(c10B)), parquet.SchemaOf(new(c10C)),
-			parquet.SchemaOf(new(c10D)), parquet.SchemaOf(new(c10E)), parquet.SchemaOf(new(c10Nest1)), parquet.SchemaOf(new(c10Nest2))}
-		for i, n := 0, ctx.Scale(2000, 20000); i < n; i++ {
-			c10Guard(ctx, "panic-in-buffer-configure", "NewBuffer on a nested schema with sorting columns panicked", nil, func() {
-				var schema *parquet.Schema
-				if i < 40*len(static) {
-					schema = static[i%len(static)]
-				} else {
-					g := parquet.Group{}
-					for j, k := 0, 1+rc.Intn(3); j < k; j++ {
-						g[string(rune('p'+j))] = c10RandSchemaNode(rc, 3)
-					}
-					schema = parquet.NewSchema("s", g)
-				}
-				c10Conf(ctx, schema, rc, &reqs, &pend)
-			})
-			if len(reqs) >= 2000 {
-				c06Flush(ctx, d, &reqs, &pend)
-			}
-		}
-		c06Flush(ctx, d, &reqs, &pend)
-		// … and the run cuts of the sorting writer over Write/WriteRows/Flush histories
-		rw := ctx.Rand("c10-sorting-writer-history")
-		for i, n := 0, ctx.Scale(1000, 10000); i < n; i++ {
-			c10Guard(ctx, "panic-in-sorting-writer-history", "a Write/WriteRows/Flush/Close history on a sorting writer panicked", nil,
-				func() { c10Cuts(ctx, rw, &reqs, &pend) })
-			if len(reqs) >= 1000 {
 				c06Flush(ctx, d, &reqs, &pend)
 			}
 		}
